@@ -398,7 +398,7 @@ func mapKeySort(t types.Type) *Sort {
 }
 
 func mapComp(t types.Type, what string) string {
-	return "M|" + types.TypeString(t.Underlying(), nil) + "|" + what
+	return "M." + sanitize(types.TypeString(t.Underlying(), nil)) + "." + what
 }
 
 func (tr *Tr) mapDecl(t types.Type) bool {
@@ -605,7 +605,33 @@ func (tr *Tr) assumeGlobalInv(g *ssa.Global, v Val, gi *GlobalInv) {
 			continue
 		}
 		tr.assume(tm, "global invariant of "+g.Name()+": "+c.Src)
-		tr.trust("global invariant " + g.String() + ": " + c.Src)
+		tr.note("global invariant " + g.String() + " (established by obligation global#" + g.Name() + " of the package initialiser; the variable is never reassigned and, if a map, never updated): " + c.Src)
+	}
+}
+
+func isPkgInit(fn *ssa.Function) bool {
+	return fn != nil && fn.Name() == "init" && fn.Parent() == nil && fn.Signature.Recv() == nil
+}
+
+// establishGlobalInv: in the package initialiser, the value stored into a global under invariant must satisfy it.
+func (tr *Tr) establishGlobalInv(fr *Frame, x *ssa.Store, g *ssa.Global, v Val, gi *GlobalInv) {
+	t := g.Type().Underlying().(*types.Pointer).Elem()
+	env := &Env{tr: tr, pkg: g.Pkg.Pkg, vars: map[string]EVal{g.Name(): {V: v, T: t}}, macros: map[string]ast_Expr{}, st: fr.st}
+	for i, c := range gi.Clauses {
+		tm, err := env.EvalBool(c.Expr)
+		if err != nil {
+			tr.specError(c, err)
+			continue
+		}
+		name := g.Name()
+		if i > 0 {
+			name = fmt.Sprintf("%s.%d", g.Name(), i)
+		}
+		pos := x.Pos()
+		if !pos.IsValid() {
+			pos = g.Pos()
+		}
+		tr.obligeNamed("global", name, pos, tm, "initialiser establishes the global invariant: "+c.Src)
 	}
 }
 
